@@ -198,6 +198,27 @@ class Sim:
                 e = es[op['a'] % len(es)]
                 self.drop_log_records(all_outs(e))
                 self.labels.add('drop_log')
+        elif k == 'add_edge':
+            # a new statement appears in the manifest: it consumes one or two existing files
+            n = 1 + max([int(key(e)[2:]) for e in g['edges'] if key(e).startswith('on') and key(e)[2:].isdigit()] or [0])
+            avail = list(srcs) + [o for e in cmds for o in all_outs(e)]
+            avail = [x for x in avail if not x.startswith('dd')]
+            if avail and n < 6:
+                ins = sorted(set([avail[op['a'] % len(avail)], avail[op['b'] % len(avail)]]))
+                g['edges'].append(dict(outs=['on%d' % n], iouts=[], phony=False, exp=ins, imp=[], oo=[], vals=[], restat=bool(op.get('restat')), generator=False,
+                                       deps='', hidden=[], variant='v0', pool='', rsp=None, dd=None, depfile_layout=0))
+                self.labels.add('manifest_statement_added')
+        elif k == 'remove_edge':
+            used = set()
+            for e in g['edges']:
+                used.update(e['exp'] + e['imp'] + e['oo'] + e.get('vals', []) + e.get('hidden', []) + e.get('dd_ins', []))
+                if e.get('dd'):
+                    used.add(e['dd'])
+            cand = [e for e in g['edges'] if not (set(all_outs(e)) & used) and not e.get('dd') and not e.get('is_dd_producer')]
+            if cand and len(g['edges']) > 1:
+                v = cand[op['a'] % len(cand)]
+                g['edges'].remove(v)
+                self.labels.add('manifest_statement_removed')
         elif k == 'bloat_log':
             p = os.path.join(self.logdir, ".ninja_log")
             try:
